@@ -143,6 +143,17 @@ def gen_obs(rng, kind, frm, to, name):
     return o
 
 
+def big_jump(text):
+    """some observance of the definition changes the offset by 24 h or more"""
+    import re
+    def secs(x):
+        sign = -1 if x[0] == "-" else 1
+        return sign * (int(x[1:3]) * 3600 + int(x[3:5]) * 60 + (int(x[5:7]) if len(x) >= 7 else 0))
+    fr = re.findall(r"TZOFFSETFROM:([+-]\d{4,6})", text)
+    to = re.findall(r"TZOFFSETTO:([+-]\d{4,6})", text)
+    return any(abs(secs(b) - secs(a)) >= 86400 for a, b in zip(fr, to))
+
+
 def gen_vtz(rng, i):
     nobs = rng.randrange(1, 5)
     base = rng.randrange(-12 * 60, 13 * 60 + 1) * 60
@@ -490,6 +501,10 @@ def run(ctx, res):
                     if "C12-F6" in known and (near or not order or not has_std):
                         res.known("C12-F6", {"vtimezone": r["text"], "instant": s, "got": g, "rfc": want},
                                   known["C12-F6"]["summary"])
+                    elif "C12-F7" in known and g[:1] == ["err"] and big_jump(r["text"]):
+                        # an observance that moves the clock by 24 h or more (Kiritimati 1994: -1040 -> +1400): dateutil
+                        # computes dst() = TZOFFSETTO - TZOFFSETFROM and datetime rejects a dst() of 24 h or more
+                        res.known("C12-F7", {"vtimezone": r["text"], "instant": s, "got": g, "rfc": want}, known["C12-F7"]["summary"])
                     else:
                         res.fail("C12 zoneinfo provider (dateutil tzical): differs from the RFC onset rule far from "
                                  "every onset", inp, observed=g, expected=want)
